@@ -141,16 +141,35 @@ def rule_rules(ctx, R, F):
     R.check(any(x['k'] == 'Assign' and show(x['l']) == 'this->canReuse_' and val(innermost(x['r'])) == 0 for x in walk(rs['body'])), 'reset() clears canReuse_ before every create', '%s:%d' % (rs['file'], rs['line']), expected='canReuse_ = false', found=show(rs['body']['s'][-1]))
     R.check(any(c.get('name') == 'reset' for c in calls(cr['body'])), 'create() calls reset()', '%s:%d' % (cr['file'], cr['line']), expected='reset()', found=[c.get('name') for c in calls(cr['body'])][:4])
     # rotation count and reciprocal divisor rejection loops
-    for tname, guard in (('IROR_C', '(this->imm32_ == 0)'), ('IMUL_RCP', 'randomx::isZeroOrPowerOf2(this->imm32_)')):
+    for tname in ('IROR_C', 'IMUL_RCP'):
         body = cases.get(tname) or []
         dos = [x for s in body for x in walk(s) if x['k'] == 'Do']
-        with astq.nocasts():
-            okd = len(dos) == 1 and showv(dos[0]['c']) == guard
-            asg = [showv(x) for x in walk(dos[0]['b']) if x['k'] == 'Assign'] if dos else []
-        exp_asg = ['(this->imm32_ = (P1.getByte() & 63))'] if tname == 'IROR_C' else ['(this->imm32_ = P1.getUInt32())']
-        with astq.renaming({cr['params'][1]['id']: 'P1'}), astq.nocasts():
-            asg = [showv(x) for x in walk(dos[0]['b']) if x['k'] == 'Assign'] if dos else []
-        R.check(okd and asg == exp_asg, '%s rejection loop' % tname, '%s:%d' % (cr['file'], cr['line']), expected='do %s while %s' % (exp_asg[0], guard), found='%s while %s' % (asg, showv(dos[0]['c']) if dos else None))
+        ok = False
+        found = None
+        if len(dos) == 1:
+            d_ = dos[0]
+            asgs = [x for x in walk(d_['b']) if x['k'] == 'Assign']
+            with astq.renaming({cr['params'][1]['id']: 'P1'}), astq.nocasts():
+                found = '%s while %s' % ([showv(x) for x in asgs], showv(d_['c']))
+                if len(asgs) == 1:
+                    var = strip_all(asgs[0]['l'])
+                    vshow = show(var)
+                    rhs = showv(asgs[0]['r'])
+                    cshow = showv(d_['c'])
+                    # the drawn value is rejected while it is 0 (rotation) / zero or a power of two (reciprocal) ...
+                    if tname == 'IROR_C':
+                        okc = rhs == '(P1.getByte() & 63)' and cshow in ('(%s == 0)' % vshow, '!%s' % vshow)
+                    else:
+                        okc = rhs == 'P1.getUInt32()' and cshow == 'randomx::isZeroOrPowerOf2(%s)' % vshow
+                    # ... and it is what ends up in imm32_: either drawn into the member directly or copied to it after the loop, unchanged
+                    if vshow == 'this->imm32_':
+                        reaches = True
+                    else:
+                        post = [x for s_ in body for x in walk(s_) if x['k'] == 'Assign' and show(x['l']) == 'this->imm32_']
+                        reaches = len(post) == 1 and ref_id(post[0]['r']) == var.get('id') and not any(
+                            x['k'] in ('Assign', 'CAssign') and ref_id(x['l']) == var.get('id') and x is not asgs[0] for s_ in body for x in walk(s_))
+                    ok = okc and reaches
+        R.check(ok, '%s rejection loop' % tname, '%s:%d' % (cr['file'], cr['line']), expected='the immediate is redrawn (%s) while it is %s, and that value becomes imm32_' % ('getByte() & 63' if tname == 'IROR_C' else 'getUInt32()', '0' if tname == 'IROR_C' else 'zero or a power of two'), found=found)
     R.check('imm32 % 64 != 0' in rules.get('IROR_C', '') and 'imm32 != 0' in rules.get('IMUL_RCP', ''), 'spec rows carry these rules', 'doc/specs.md', expected='Table 6.1.1 rules column', found=(rules.get('IROR_C'), rules.get('IMUL_RCP')))
     # r5 as source in the two-register special case
     ss = F.func('randomx::SuperscalarInstruction::selectSource')
@@ -276,7 +295,7 @@ def rule_addrreg(ctx, R, F):
     exp1 = "if (PROG.asicLatencies[I] > asicLatencyMax): ['(asicLatencyMax = PROG.asicLatencies[I])', '(addressReg = I)']"
     R.check(loop_trip(tail[1]) == 8 and exp1 in b1, 'arg-max over r0-r7', loc(tail[1], f), expected=exp1, found=b1)
     R.check(len(ms) == 1 and setr == ['PROG.setAddressRegister(addressReg)'], 'latencies reset and register recorded', where, expected='memset(asicLatencies, 0, ..); setAddressRegister(addressReg)', found=(ms, setr))
-    init = [d for x in walk(f['body']) if x['k'] == 'Decl' for d in x['d'] if d['id'] in (role_ids.get('asicLatencyMax'), role_ids.get('addressReg'))]
+    init = [d for x in walk(f['body']) if x['k'] == 'Decl' for d in x['d'] if d.get('id') is not None and d.get('id') in (role_ids.get('asicLatencyMax'), role_ids.get('addressReg'))]
     R.check(all(val(d.get('init')) == 0 for d in init) and len(init) == 2, 'search starts at (0, r0)', where, expected='asicLatencyMax = 0, addressReg = 0', found=[(d['name'], val(d.get('init'))) for d in init])
 
 
@@ -489,7 +508,15 @@ def rule_exec(ctx, R, F):
             got = [showv(s) for s in cases.get(t, []) if s['k'] != 'Break']
             R.eq('%s semantics' % t, '%s:%d' % (f['file'], f['line']), e, got)
         rcp = cases.get('IMUL_RCP', [])
-        got = [showv(x) for s in rcp for x in walk(s) if x['k'] == 'CAssign']
+        import decoder as _dec
+        got = []
+        for p_ in _dec.paths({'k': 'Compound', 's': [s for s in rcp if s['k'] != 'Break']}):
+            for e_ in p_.events:
+                if isinstance(e_, tuple):
+                    continue
+                for x in walk(e_):
+                    if x['k'] == 'CAssign' and showv(x) not in got:
+                        got.append(showv(x))      # if / else and ?: both arrive here as one statement per path
     R.eq('IMUL_RCP semantics', '%s:%d' % (f['file'], f['line']), ['(R[IN.dst] *= *P2[IN.getImm32()])', '(R[IN.dst] *= randomx_reciprocal(IN.getImm32()))'], [g.replace(show({'k': 'Ref', 'id': f['params'][2]['id'], 'n': 'reciprocals'}), 'P2') for g in got] if False else normalise_rcp(got, f))
     # rotate count in rotr: masked there or guaranteed < 64 by the generator (IROR_C immediates are 1..63)
     ic = F.func('randomx::initCache')
